@@ -11,6 +11,7 @@ Import ListNotations.
 Open Scope Z_scope.
 
 From SK Require Import Check.Scores Check.SbsCheck Proofs.CheckerSoundness Proofs.ValidCuts.
+From SK Require Import Model.Generic Proofs.GenericZ.
 Definition lens_ok (n minlen maxlen : nat) (lens : list (nat * nat)) : Prop :=
   lens <> [] /\ forall len step, In (len, step) lens -> (minlen <= len <= Nat.min maxlen n /\ 1 <= step)%nat.
 
@@ -149,3 +150,9 @@ Proof. exact @sbs_ext_valid. Qed.
 Print Assumptions C07_checker_sound.
 Print Assumptions C07_model_equality_checker_sound.
 Print Assumptions C07_only_valid_cuts_matter.
+
+(** ---- added: statements re-derived from the lemma files by tools/append_props.py ---- *)
+Theorem C07_generic_loop_at_Z_is_the_model : forall (CS : nat -> nat -> nat -> T Zn) (m : nat) (thr : T Zn) (ivs : list (nat * nat)), gsbs Zn CS m thr ivs = sbs CS m thr ivs.
+Proof. exact @gsbs_Z. Qed.
+
+Print Assumptions C07_generic_loop_at_Z_is_the_model.
